@@ -2,7 +2,7 @@
 use crate::dd::*;
 use crate::ind::B;
 
-pub fn last_n(h: &[f64], n: usize) -> &[f64] {
+pub fn last_n<T>(h: &[T], n: usize) -> &[T] {
     let k = h.len().min(n);
     &h[h.len() - k..]
 }
